@@ -147,20 +147,35 @@ def prepare(case):
     atom = case.atom
     warmed = atom.endswith('@warm')
     base_atom = atom[:-5] if warmed else atom
+    # autograd regime of the call: '+nograd' = inside torch.no_grad(); '+frozen' = every parameter has requires_grad False (inference
+    # with frozen weights); otherwise autograd is on and the parameters require gradients
+    kind0, _, regime = case.kind.partition('+')
+    case_kind = kind0
+
+    def in_regime(f):
+        if regime != 'nograd':
+            return f
+        def g():
+            with torch.no_grad():
+                return f()
+        return g
     # the context / the parameter tensors get another kind than the inputs so that every kind is exercised on every role
-    ckind = KINDS[(KINDS.index(case.kind) + 2) % len(KINDS)] if case.kind != 'contig' else 'contig'
+    ckind = KINDS[(KINDS.index(case_kind) + 2) % len(KINDS)] if case_kind != 'contig' else 'contig'
     if cfg.kind == 'func':
         args = cfg.make_args(base_atom, gen)
         callers = {}
         for i, (n, t) in enumerate(args.items()):
-            k = case.kind if n == 'inputs' else (ckind if i % 2 else KINDS[(KINDS.index(ckind) + 1) % len(KINDS)])
-            if case.kind == 'contig':
+            k = case_kind if n == 'inputs' else (ckind if i % 2 else KINDS[(KINDS.index(ckind) + 1) % len(KINDS)])
+            if case_kind == 'contig':
                 k = 'contig'
             callers[n] = make_kind(t, k)
         inverse = case.call == 'call_inverse'
-        return None, callers, (lambda: cfg.invoke(callers, inverse))
+        return None, callers, in_regime(lambda: cfg.invoke(callers, inverse))
     m = zoo.build(cfg, 1000 + (case_seed((cfg.name,), 0) % 1000))
     m.train(case.mode == 'train')
+    if regime == 'frozen':
+        for q in m.parameters():
+            q.requires_grad_(False)
     x0 = cfg.gen(base_atom, gen)
     c0 = cfg.gen_ctx(gen)
     if warmed:
@@ -176,14 +191,14 @@ def prepare(case):
                 m.inverse(y, context=c0)
         except Exception:
             pass
-    x = make_kind(x0, case.kind)
+    x = make_kind(x0, case_kind)
     c = make_kind(c0, ckind)
     callers = {}
     if case.call not in ('sample', 'sample_and_log_prob', 'sample1', 'sample_and_log_prob1'):
         callers['inputs'] = x
     if c is not None:
         callers['context'] = c
-    return m, callers, (lambda: do_call(m, case.call, x, c))
+    return m, callers, in_regime(lambda: do_call(m, case.call, x, c))
 
 
 def run_case(case, repeat=True):
@@ -243,12 +258,12 @@ def enumerate_cases(tier, seed, kinds_full=False, for_translator=False):
             for call in cfg.get_calls():
                 for atom in atoms:
                     if for_translator:
-                        kinds = ['contig']
+                        kinds = ['contig', 'contig+nograd']
                     elif tier == 'thorough' or kinds_full:
-                        kinds = list(KINDS)
+                        kinds = list(KINDS) + ['contig+nograd', 'contig+frozen', 'transposed+nograd']
                     else:
                         rot += 1
-                        kinds = ['contig', KINDS[1 + rot % 4], KINDS[1 + (rot + 2) % 4]]
+                        kinds = ['contig', KINDS[1 + rot % 4], KINDS[1 + (rot + 2) % 4], ('contig+nograd', 'contig+frozen', 'transposed+nograd')[rot % 3]]
                     for kind in kinds:
                         if kind == 'expanded' and cfg.batch_stats and mode == 'train':
                             kind = 'slice'       # identical rows make the batch statistics degenerate (std = 0)
